@@ -71,6 +71,15 @@ def evaluate(case):
                 if abs(diff - exp) > 1e-9 * (u[k] ** 2 + 1e-300):
                     fails.append("uniform grid: coded and exact variances differ by more than the two end-point terms")
                     break
+    # "depends only on the grids, the options and the input uncertainties": integer-typed data (counts) with the same
+    # non-integer uncertainties must give the same uncertainty as any float data
+    yi = np.rint(y * 3).astype(np.int64)
+    try:
+        _, _, ui = tr.fourier_transform(x, yi, xo, xmax=hi, dy_in=e, **kw)
+        if np.asarray(ui).shape != u.shape or np.abs(np.asarray(ui, dtype=float) - u).max() > 1e-12 * sc:
+            fails.append("transform uncertainty depends on the data: integer-typed data give a different (truncated) uncertainty")
+    except Exception as ex:  # noqa: BLE001
+        fails.append(f"integer-typed data with float uncertainties raise {type(ex).__name__}")
     # 2/pi scaling in the Q->r direction
     _, _, ug2 = tr.F_to_G(x, y, xo, dfq=e, **kw) if hi is None else tr.F_to_G(x, y, xo, dfq=e, xmax=hi, **kw)
     if np.abs(np.asarray(ug2) - u * 2 / np.pi).max() > 1e-12 * sc:
